@@ -176,13 +176,17 @@ def lastRedirectField (fs : List Str) : Option (Str × Str) :=
     else cur) none
 
 /-- the last field `key=value` (not a `proto=…`/`weight=`/`redirect=` field the loop consumes) -/
-def lastPlainValue (key : Str) (fs : List Str) : Str :=
-  optValue key (fs.filter (fun o => (protoSchemes.lookup o).isNone && !hasPrefix o kWeight && !hasPrefix o kRedirect))
+def plainP (o : Str) : Bool := (protoSchemes.lookup o).isNone && !hasPrefix o kWeight && !hasPrefix o kRedirect
+
+def lastPlainValue (key : Str) (fs : List Str) : Str := optValue key (fs.filter plainP)
 
 /-- What a `urlprefix-` tag with a `redirect=<code>,<url>` option must configure, whatever the order of its
 options: the status is the configured code, `strip`/`prepend` are the tag's (the last occurrence each). -/
 def tagSpec (optsText : Str) (strip prepend : Str) (code : Int) : Bool :=
   let fs := fields optsText
+  -- a bare field `redirect` (no `=`) is an ordinary option named like the redirect code: `parseOpts` lets the last
+  -- one win, so it would switch the redirect off again — nothing is specified for such a tag
+  if fs.contains (lit "redirect") then true else
   match lastRedirectField fs with
   | none => true
   | some (c, _) =>
